@@ -565,6 +565,7 @@ class Interp:
     # is *now*, and a mutating call on the local is a store to the place.
     OPTION_REBORROWS = ('as_mut', 'as_ref', 'as_deref', 'as_deref_mut')       # Option<T> place -> Option<&T>: same place
     OPTION_PAYLOADS = ('unwrap', 'expect', 'unwrap_unchecked')                # -> the payload of the good variant
+    OPTION_INSERTERS = ('insert', 'get_or_insert', 'get_or_insert_with', 'get_or_insert_default')   # -> the payload of the option they leave Some
 
     def place_of(self, e, depth=0):
         """The place a place expression denotes (a term rooted in a parameter), or None.  Purely structural."""
@@ -586,6 +587,10 @@ class Interp:
             if good is not None and name in self.OPTION_PAYLOADS:
                 b = self.place_of(e['recv'], depth + 1)
                 return ('variant', b, good, 0) if b is not None else None
+            if good == 'Some' and name in self.OPTION_INSERTERS:
+                # insert / get_or_insert*: the `&mut T` they return points at the payload of the option they were called on
+                b = self.place_of(e['recv'], depth + 1)
+                return ('variant', b, 'Some', 0) if b is not None else None
         if k == 'Try':
             b = self.place_of(e['e'], depth + 1)
             good = 'Some' if (e['e'].get('ty') or '').startswith('core::option::Option') else 'Ok'
@@ -1243,6 +1248,13 @@ class Interp:
         if lhs['k'] == 'Unary' and lhs.get('op') == 'Deref':
             inner = hirq.peel_refs(lhs['e'])
             if inner['k'] == 'Path' and inner.get('res') == 'local':
+                P = self.ref_place(inner['bind'])
+                base = self.env_place(P[1], st) if P is not None and P[0] == 'field' else None
+                if base is not None:
+                    # `*r = v` where r is a `&mut` local bound once to a place expression (`let r = &mut self.x;`): a store to that
+                    # place, whatever the place holds by now
+                    place = ('field', self.place_value(base, st), P[2])
+                    return [Out('val', UNIT, st.store(place, val).event(('store', place, val, node)))]
                 cur = st.env.get(inner['bind'])
                 if cur is not None and cur[0] == 'field':
                     # `*r = v` where r was bound to a place (`let (a, b) = &mut *guard`): a store through the reference
@@ -1367,44 +1379,159 @@ class Interp:
                     else:
                         outs.append(Out('val', ('call', self.TAKE, (old,), e.get('id')), s2))
                 else:
-                    s2 = s1.store(place, nv).event(('call', cal, (old, nv), e))
+                    # mem::replace(&mut place, v) = { let old = read(place); write(place, v); old } for every place and v: the call is
+                    # recorded as before, and the write it amounts to as the same 'store' event an assignment `place = v` leaves
+                    s2 = s1.store(place, nv).event(('call', cal, (old, nv), e)).event(('store', place, nv, e))
                     outs.append(Out('val', old, s2))
+        return outs
+
+    # ------------------------------------------------------------------ Option methods that write through `&mut self`
+    # One model per method, each std's definition (core::option) read as an update of the place the method is called on; `old` is what
+    # the place holds before the call.  Where the definition depends on whether `old` is Some and that is not known, the path forks
+    # on ('is', old, 'Some'), so the place afterwards holds what std says for every prior value:
+    #   replace(v)              = mem::replace(self, Some(v)):        place := Some(v), returns old
+    #   insert(v)               = { *self = Some(v); payload }:       place := Some(v), returns (a `&mut` to) v
+    #   get_or_insert(v)        = { if let None = self { *self = Some(v) }; payload }:  old Some(x): place unchanged, returns x -
+    #                             old None: place := Some(v), returns v   (v is the caller's argument: evaluated in both cases)
+    #   get_or_insert_with(f)   the same with v = f(), f called only when old is None
+    #   get_or_insert_default() the same with v = T::default()
+    #   take()                  = mem::replace(self, None):           place := None, returns old
+    #   take_if(p)              = if self.as_mut().map_or(false, p) { self.take() } else { None }:  old Some(x) and p(&mut x):
+    #                             place := None, returns old - otherwise place unchanged, returns None
+    # A write is recorded exactly as the assignment `place = value` would be (a 'store' event for a field, 'assign-local' for a
+    # local); a case that leaves the place alone records nothing but the test in the path condition.  (`*place = Some(v)` is the
+    # assignment itself, mem::replace(&mut place, Some(v)) is modelled in mem_take.)
+    OPTION = 'core::option::Option::<T>::'
+    OPTION_WRITERS = ('replace', 'insert', 'get_or_insert', 'get_or_insert_with', 'get_or_insert_default', 'take', 'take_if')
+
+    def env_place(self, P, st):
+        """The structural place P (rooted in a parameter, see place_of) as the term that the field expressions of this body evaluate
+        to on this path: the parameter is what the environment binds it to (itself, unless the body is evaluated for a caller's
+        argument).  None for a place with an Option payload in it."""
+        if P[0] == 'param':
+            for b, d in self.body.defs.items():
+                if d['kind'] == 'param' and not d['proj'] and d['name'] == P[1]:
+                    return st.env.get(b, P)
+            return P
+        if P[0] == 'field':
+            b = self.env_place(P[1], st)
+            return None if b is None else ('field', b, P[2])
+        return None
+
+    def option_targets(self, recv, st):
+        """What the receiver expression of a `&mut self` method of Option denotes: ([(target, state)], abnormal outcomes) with target
+          ('field', place)   a field of a value the path has evaluated (`self.x`, `conn.ldap.x`, `s.x` for a local struct s), also
+                             through a `&mut` local bound once to such a place expression (`let o = &mut self.x; o.replace(v)`);
+          ('local', b)       a local that holds the Option by value, also through `&mut` locals that stand for it (referent_local);
+        None for anything else (a `&mut Option` parameter, a reference obtained from a call, ...): no model, the call stays opaque."""
+        r = hirq.peel_refs(recv)
+        if r['k'] == 'Field':
+            tg, abn = [], []
+            for o in self.ev(r['e'], st):
+                if o.kind != 'val':
+                    abn.append(o); continue
+                tg.append((('field', ('field', o.val, r['name'])), o.st))
+            return tg, abn
+        if r['k'] == 'Path' and r.get('res') == 'local':
+            d = self.body.defs.get(r['bind'])
+            ty = ((d or {}).get('pat') or {}).get('ty') or r.get('ty') or ''
+            if ty.startswith('&mut '):
+                P = self.ref_place(r['bind'])
+                if P is not None and P[0] == 'field':
+                    base = self.env_place(P[1], st)
+                    if base is not None:
+                        return [(('field', ('field', self.place_value(base, st), P[2])), st)], []
+                    return None
+                b = self.referent_local(r['bind'])
+                bd = self.body.defs.get(b)
+                if b == r['bind'] or bd is None or not (((bd.get('pat') or {}).get('ty')) or '').startswith('core::option::Option<'):
+                    return None
+                return ([(('local', b), st)], []) if b in st.env else None
+            if ty.startswith('core::option::Option<') and d is not None and d['kind'] != 'param' and r['bind'] in st.env:
+                return [(('local', r['bind']), st)], []
+        return None
+
+    def place_value(self, t, st):
+        """the value a place term (a parameter, or a chain of fields below one) holds on this path"""
+        if t[0] == 'field':
+            return self.read_field(self.place_value(t[1], st), t[2], st)
+        return t
+
+    def option_read(self, tg, st):
+        return self.read_field(tg[1][1], tg[1][2], st) if tg[0] == 'field' else st.env[tg[1]]
+
+    def option_write(self, tg, val, st, node):
+        if tg[0] == 'field':
+            return st.store(tg[1], val).event(('store', tg[1], val, node))
+        return st.set(tg[1], val).event(('assign-local', tg[1], val, node))
+
+    def option_cases(self, old, st):
+        """[(is Some, payload | None, state)]: the cases of an Option value - one when the term or the path condition decides it"""
+        if old[0] == 'ctor' and old[1] in ('Some', 'None'):
+            return [(old[1] == 'Some', old[2][0] if old[2] else None, st)]
+        kt = st.variant_test(old, 'Some', ['Some', 'None'])
+        cases = []
+        if kt != 'no':
+            cases.append((True, ('variant', old, 'Some', 0), st if kt == 'yes' else st.assume(('is', old, 'Some'), True)))
+        if kt != 'yes':
+            cases.append((False, None, st if kt == 'no' else st.assume(('is', old, 'Some'), False)))
+        return cases
+
+    def option_writer(self, cal, e, st):
+        """The models listed above; None when the receiver is not a place this interpreter keeps track of."""
+        name = cal[len(self.OPTION):]
+        nargs = {'replace': 1, 'insert': 1, 'get_or_insert': 1, 'get_or_insert_with': 1, 'get_or_insert_default': 0, 'take': 0, 'take_if': 1}[name]
+        if len(e['args']) != nargs:
+            return None
+        tgs = self.option_targets(e['recv'], st)
+        if tgs is None:
+            return None
+        NONE = ('ctor', 'None', ())
+        some = lambda v: ('ctor', 'Some', (v,))
+        outs = list(tgs[1])
+        for tg, s0 in tgs[0]:
+            res, abn = self.seq(e['args'], s0)
+            outs.extend(abn)
+            for vals, s in res:
+                old = self.option_read(tg, s)
+                if name == 'replace':
+                    outs.append(Out('val', old, self.option_write(tg, some(vals[0]), s, e)))
+                elif name == 'insert':
+                    outs.append(Out('val', vals[0], self.option_write(tg, some(vals[0]), s, e)))
+                elif name == 'take':
+                    # (recorded as the interpreter always has recorded a take: the call event, and - when it is not known what the
+                    # place held - the term TAKE(old) as the value; see sem.untake / sem.taken_from)
+                    s2 = (s.store(tg[1], NONE) if tg[0] == 'field' else s.set(tg[1], NONE)).event(('call', cal, (old,), e))
+                    outs.append(Out('val', old if old[0] == 'ctor' and old[1] in ('Some', 'None') else ('call', cal, (old,), e.get('id')), s2))
+                elif name == 'take_if':
+                    for is_some, inner, s1 in self.option_cases(old, s):
+                        if not is_some:
+                            outs.append(Out('val', NONE, s1)); continue
+                        for o in self.apply(vals[0], [inner], e, s1):
+                            if o.kind != 'val':
+                                outs.append(o); continue
+                            for truth, s3 in self.decide(o.val, o.st):
+                                outs.append(Out('val', some(inner), self.option_write(tg, NONE, s3, e)) if truth else Out('val', NONE, s3))
+                else:
+                    for is_some, inner, s1 in self.option_cases(old, s):
+                        if is_some:
+                            outs.append(Out('val', inner, s1))
+                        elif name == 'get_or_insert':
+                            outs.append(Out('val', vals[0], self.option_write(tg, some(vals[0]), s1, e)))
+                        elif name == 'get_or_insert_with':
+                            for o in self.apply(vals[0], [], e, s1):
+                                outs.append(Out('val', o.val, self.option_write(tg, some(o.val), o.st, e)) if o.kind == 'val' else o)
+                        else:
+                            v = default_term(hirq.strip_refs(e.get('ty') or ''))
+                            outs.append(Out('val', v, self.option_write(tg, some(v), s1, e)))
         return outs
 
     def ev_MethodCall(self, e, st):
         cal = callee_of(e) or ('<method %s>' % e.get('name'))
-        if cal == 'core::option::Option::<T>::take' and not e['args']:
-            recv = hirq.peel_refs(e['recv'])
-            if recv['k'] == 'Field':
-                outs = []
-                for o in self.ev(recv['e'], st):
-                    if o.kind != 'val':
-                        outs.append(o); continue
-                    place = ('field', o.val, recv['name'])
-                    old = self.read_field(o.val, recv['name'], o.st)
-                    s2 = o.st.store(place, ('ctor', 'None', ())).event(('call', cal, (old,), e))
-                    if old[0] == 'ctor' and old[1] in ('Some', 'None'):
-                        outs.append(Out('val', old, s2))
-                    else:
-                        outs.append(Out('val', ('call', cal, (old,), e.get('id')), s2))
-                return outs
-        if cal == 'core::option::Option::<T>::get_or_insert_with' and len(e['args']) == 1 and self.combinators:
-            recv = hirq.peel_refs(e['recv'])
-            if recv['k'] == 'Path' and recv.get('res') == 'local':
-                cur = st.env.get(recv['bind'])
-                if cur is not None and cur[0] == 'ctor' and cur[1] == 'Some':
-                    return [Out('val', cur[2][0], st)]
-                if cur is not None and cur[0] == 'ctor' and cur[1] == 'None':
-                    outs = []
-                    for o0 in self.ev(e['args'][0], st):
-                        if o0.kind != 'val':
-                            outs.append(o0); continue
-                        for o in self.apply(o0.val, [], e, o0.st):
-                            if o.kind == 'val':
-                                outs.append(Out('val', o.val, o.st.set(recv['bind'], ('ctor', 'Some', (o.val,)))))
-                            else:
-                                outs.append(o)
-                    return outs
+        if cal.startswith(self.OPTION) and cal[len(self.OPTION):] in self.OPTION_WRITERS:
+            r = self.option_writer(cal, e, st)
+            if r is not None:
+                return r
         if self.exact_seqs and not e['args'] and (cal == 'core::iter::traits::iterator::Iterator::next' or cal.endswith(' as core::iter::traits::iterator::Iterator>::next')):
             # it.next() on a local iterator whose remaining items are all known (the pieces of a split literal, the octets of a literal
             # byte string): Some(first remaining item) and the local holds the rest afterwards; None (and no change) when nothing is
@@ -2372,6 +2499,10 @@ def listed_elems(t):
         a, b = listed_elems(t[1]), listed_elems(t[2])
         return a + b if a is not None and b is not None else None
     return None
+
+def default_term(ty):
+    """(one definition: see default_value)"""
+    return default_value(ty)
 
 def vec_truncate(c, n):
     """The content of vector term c after truncate(n)."""
